@@ -46,6 +46,7 @@ pub struct Profile {
     pub unicode: u64,  // percent of names from the non-ASCII pool
     pub bad_names: u64, // percent of created names that are invalid
     pub small_bias: bool, // keep sizes small (many streams)
+    pub tree: bool,       // only operations expressible on the abstract tree; streams written whole
     pub maxbufs: &'static [usize],
 }
 
@@ -67,6 +68,7 @@ pub fn profile(name: &str) -> Profile {
         unicode: 20,
         bad_names: 4,
         small_bias: false,
+        tree: false,
         maxbufs: &[1, 1024, 1500, 4096, 1 << 20],
     };
     match name {
@@ -142,6 +144,45 @@ pub fn profile(name: &str) -> Profile {
             ..base
         },
         "persist" => Profile { name: "persist", w_reopen: 12, ..base },
+        "tree" => Profile {
+            name: "tree",
+            steps: (15, 45),
+            w_create_storage: 14,
+            w_create_stream: 18,
+            w_remove: 14,
+            w_remove_all: 2,
+            w_meta: 8,
+            w_query: 22,
+            w_handle_open: 0,
+            w_handle_io: 0,
+            w_cat: 10,
+            w_reopen: 4,
+            w_refuse: 8,
+            unicode: 25,
+            bad_names: 5,
+            tree: true,
+            ..base
+        },
+        "treebig" => Profile {
+            name: "treebig",
+            steps: (60, 120),
+            w_create_storage: 16,
+            w_create_stream: 22,
+            w_remove: 14,
+            w_remove_all: 1,
+            w_meta: 4,
+            w_query: 10,
+            w_handle_open: 0,
+            w_handle_io: 0,
+            w_cat: 6,
+            w_reopen: 2,
+            w_refuse: 4,
+            unicode: 15,
+            bad_names: 2,
+            tree: true,
+            small_bias: true,
+            ..base
+        },
         _ => panic!("unknown profile {}", name),
     }
 }
@@ -229,7 +270,7 @@ impl Gen {
         r
     }
 
-    fn size(&mut self) -> usize {
+    pub fn size(&mut self) -> usize {
         if self.prof.small_bias && self.rng.chance(3, 4) {
             *self.rng.pick(&[0usize, 1, 10, 63, 64, 65, 100, 200, 500])
         } else if self.rng.chance(1, 6) {
@@ -239,7 +280,7 @@ impl Gen {
         }
     }
 
-    fn data(&mut self, n: usize) -> Vec<u8> {
+    pub fn data(&mut self, n: usize) -> Vec<u8> {
         self.wcount += 1;
         let tag = self.wcount;
         (0..n).map(|i| (((tag * 37 + i as u32 * 7 + (i as u32 >> 8)) % 255) + 1) as u8).collect()
